@@ -440,9 +440,14 @@ def check_scaled_cumulative_clamped(ctx, F):
     every such conversion that feeds a cdf is clamped in *integer* arithmetic (`min` with the free weight) before the
     per-symbol slack is added; the consumers wrap the differences into NonZero without a check."""
     ff = anchors.validators(F).get('float_fast')
+    fpq = anchors.validators(F).get('float_perfect')
     bodies = []
     if ff is not None:
         bodies += [(c, 'eager') for c in F.closures_of(ff)]
+    if fpq is not None:
+        # the `_perfect` quantiser: each symbol's share of the free weight is a float product too, and it is subtracted from an
+        # integer budget with overflow-checked arithmetic (a panic in debug builds, a wrap in release builds)
+        bodies += [(c, 'perfect') for c in F.closures_of(fpq)] + [(fpq, 'perfect')]
     bodies += [(b, 'lazy') for b in F.bodies if b.promoted is None and not is_test(b) and b.self_adt == LAZY and b.dk == 'AssocFn' and b.name != 'from_floating_point_probabilities_fast']
     n = 0
     for b, kind in bodies:
